@@ -185,13 +185,20 @@ pub async fn run_acb_app_to_render_model(
 
     let mut all_deltas = Vec::<TxDelta>::new();
     let mut sec_render_tables = HashMap::new();
-    for (sec, deltas_res) in deltas_results_by_sec {
+    // Go through the securities in sorted order: the order of all_deltas
+    // decides the order of the "ignored transaction" notes and the order in
+    // which the cost totals are added up, and the map's own iteration order
+    // differs from run to run.
+    let mut sorted_secs: Vec<&Security> = deltas_results_by_sec.keys().collect();
+    sorted_secs.sort();
+    for sec in sorted_secs {
+        let deltas_res = deltas_results_by_sec.get(sec).unwrap();
         let deltas = deltas_res.deltas_or_partial_deltas();
         let mut deltas_copy = deltas.iter().cloned().collect();
         all_deltas.append(&mut deltas_copy);
         let mut table_model = render_tx_table_model(
             deltas,
-            gains.security_gains.get(&sec).unwrap_or(&default_gains),
+            gains.security_gains.get(sec).unwrap_or(&default_gains),
             render_full_dollar_values,
         );
         if let Err(e) = &deltas_res.0 {
